@@ -143,9 +143,12 @@ def check_C04_generic(p):
                 return f"diagnostic {d['msg'][:40]!r}: {e}"
         # a syntax diagnostic covers exactly the offending token
         if d["ctx"] in ("unrecognized token", "extra token"):
-            m = re.search(r"token `(.*?)`", d["msg"], re.S)
-            if not m or src.slice(d["range"]) != m.group(1):
-                return f"syntax diagnostic range {d['range']} covers {src.slice(d['range'])!r}, message names {m.group(1) if m else None!r}"
+            # the message quotes the token between backticks (the token itself may contain a backtick: compare literally)
+            covered = src.slice(d["range"])
+            quoted = "token `" + covered + "`"
+            if not ((quoted + ".") in d["msg"] or d["msg"].endswith(quoted)):
+                m = re.search(r"token `(.*)`", d["msg"].split("\n")[0])
+                return f"syntax diagnostic range {d['range']} covers {covered!r}, message names {m.group(1) if m else None!r}"
             if d["range"].s == d["range"].e:
                 return "syntax diagnostic on a token has an empty range"
         if d["ctx"] in ("invalid token", "unrecognized EOF") and d["range"].s != d["range"].e:
